@@ -113,7 +113,7 @@ def frame_rule(ctx, p, K):
 
     def is_unmasked(c):
         t = Poly.elem("mask_index_array", x, y)
-        if c.kind == "cmp" and c.args[0] == t and c.args[1] == ">=" and c.args[2] == ZERO:
+        if c.kind == "cmp" and c.args[0] == ZERO and c.args[1] == "<=" and c.args[2] == t:  # t >= 0 (comparisons are stored oriented to < / <=)
             return True
         if c.kind == "not" and c.args[0].kind == "truth" and c.args[0].args[0] == Poly.elem("mask", x, y):
             return True
